@@ -1,5 +1,6 @@
 import PrimaiteModel.Model.Filter
 import PrimaiteModel.Model.FilterClass
+import PrimaiteModel.Model.FilterNet
 open Primaite Primaite.Acl Primaite.Cut Primaite.Filter
 
 /-! Line-protocol driver for the C06 element models (Model/Filter.lean).
@@ -48,8 +49,6 @@ def totalHits (s : DNode) : Nat := (allAclIds.map (fun a => aclHits (s.acls a)))
 def initNode : DNode :=
   { kind := .host, on := true, ifaces := [], acls := fun _ => Acl.empty 24 .deny, sw := {} }
 
-def isOwnIp (s : DNode) (ip : Ip) : Bool := s.ifaces.any (fun i => i.ip == ip)
-
 /-- stub software, parametrised by the verdict count at arrival, the forward port, the DMZ look-up result -/
 def stub (base : Nat) (fwd : Option Nat) (nic : Option Nat) (reply : Bool) : Soft Sw :=
   let ev (s : DNode) (name : String) : Sw := { s.sw with log := s.sw.log ++ [s!"{name}@{totalHits s - base}"] }
@@ -62,9 +61,7 @@ def stub (base : Nat) (fwd : Option Nat) (nic : Option Nat) (reply : Bool) : Sof
     learn := fun s _ _ => ev s "learn"
     hostAccept := fun s f =>
       f.pkt.proto == .icmp || (match f.pkt.ports with | some (_, d) => s.sw.openPorts.contains d | none => false)
-    toSession := fun s f =>
-      isOwnIp s f.pkt.dstIp &&
-        (f.pkt.proto == .icmp || (match f.pkt.ports with | some (_, d) => s.sw.openPorts.contains d | none => false))
+    toSession := stdToSession (fun s => s.sw.openPorts)
     session := fun s p f => out s "session" (if reply then some p else none) f
     process := fun s _ f => out s "process" fwd f
     dmzLookup := fun s _ _ => .done { s with sw := ev s "lookup" }
@@ -172,6 +169,12 @@ Class-aware certificate (`certifyC`, proved sound in Props/C06Class.lean), same 
   t-class <proto|-> <sip|-> <swc|-> <dip|-> <dwc|-> <sport|-> <dport|->                     (one pattern of the frame class)
   t-arp <0/1>                                                                             (genuine ARP packets circulate too)
   t-certifyC → certifiedC | uncertifiedC <first failing node>
+
+Network-level certificate (`certifyN`, proved sound in Props/C06Net.lean: hosts and switches modelled, no closure hypothesis):
+  t-iface <node> <enabled> <ip> <mask> <mac>                                               (with the real MAC)
+  t-label <node> <port> <base> <mask>                                                      (subnet of the port's layer-2 segment)
+  t-rtrif <mac> <ip>                                                                      (an interface of a blocking router)
+  t-certifyN → certifiedN | certifiedN-fw2 (the FwSecondOK hypothesis is not vacuous) | uncertifiedN <node|classcert>
 -/
 
 structure DState where
@@ -180,6 +183,9 @@ structure DState where
   states : List DNode := []
   cls : List Rule := []
   arpExempt : Bool := false
+  kinds : List NKind := []
+  labels : List ((Nat × Nat) × (Ip × Ip)) := []
+  rtrIfs : List (Mac × Ip) := []
 
 def roleC : RoleTag → RoleTagC
   | .interior => .interior | .ifaceDown => .ifaceDown | .routerOff => .routerOff | .routerDeny => .routerDenyC
@@ -187,6 +193,22 @@ def roleC : RoleTag → RoleTagC
 
 def DState.topoC (st : DState) : TopoC :=
   { nodes := st.topo.nodes.map (fun x => (x.1, roleC x.2)), wires := st.topo.wires, cls := st.cls, arpExempt := st.arpExempt }
+
+def DState.topoN (st : DState) : TopoN :=
+  { toTopoC := st.topoC, kinds := st.kinds, labels := st.labels, rtrIfs := st.rtrIfs }
+
+/-- is the firewall hypothesis of `C06_certifiedN_unchanged` vacuous: at every blocking firewall, the first list of every
+attacker-facing port denies the class -/
+def fwHypFree (t : TopoN) (σ : Nat → DNode) : Bool :=
+  (List.range t.nodes.length).all fun n =>
+    !(t.side n && t.role n == .fwDenyC) ||
+      t.wires.all (fun w => w.2.1 != n || !t.side w.1.1 ||
+        match portEntry w.2.2 with
+        | some e => denyClassCheck t.cls ((σ n).acls (entryAcl e))
+        | none => true)
+
+def nkindOf : Kind → NKind
+  | .host => .host | .switch => .switch | _ => .other
 
 def parseRole : String → Option RoleTag
   | "interior" => some .interior | "ifaceDown" => some .ifaceDown | "routerOff" => some .routerOff
@@ -198,7 +220,29 @@ def onNode (st : DState) (i : Nat) (f : DNode → DNode × String) : DState × S
   | none => (st, "bad-op")
 
 def stepAll (st : DState) : List String → DState × String
-  | ["t-new"] => ({ st with topo := { nodes := [], wires := [] }, states := [], cls := [], arpExempt := false }, "ok")
+  | ["t-new"] =>
+    ({ st with topo := { nodes := [], wires := [] }, states := [], cls := [], arpExempt := false, kinds := [], labels := [],
+               rtrIfs := [] }, "ok")
+  | ["t-iface", i, en, ip, mask, mac] =>
+    match i.toNat?, parseBool en, parseIp ip, parseIp mask, mac.toNat? with
+    | some i, some en, some ip, some mask, some mac =>
+      onNode st i fun n => ({ n with ifaces := n.ifaces ++ [{ enabled := en, mac := mac, ip := ip, mask := mask }] }, "ok")
+    | _, _, _, _, _ => (st, "bad-op")
+  | ["t-label", n, p, base, mask] =>
+    match n.toNat?, p.toNat?, parseIp base, parseIp mask with
+    | some n, some p, some base, some mask => ({ st with labels := st.labels ++ [((n, p), (base, mask))] }, "ok")
+    | _, _, _, _ => (st, "bad-op")
+  | ["t-rtrif", mac, ip] =>
+    match mac.toNat?, parseIp ip with
+    | some mac, some ip => ({ st with rtrIfs := st.rtrIfs ++ [(mac, ip)] }, "ok")
+    | _, _ => (st, "bad-op")
+  | ["t-certifyN"] =>
+    let σ : Nat → DNode := fun n => st.states.getD n initNode
+    if certifyN st.topoN σ then (st, if fwHypFree st.topoN σ then "certifiedN" else "certifiedN-fw2")
+    else if !certifyC st.topoC σ then (st, "uncertifiedN classcert")
+    else match certifyFailN st.topoN σ with
+      | some n => (st, s!"uncertifiedN {n}")
+      | none => (st, "uncertifiedN ?")
   | ["t-iface", i, en, ip, mask] =>
     match i.toNat?, parseBool en, parseIp ip, parseIp mask with
     | some i, some en, some ip, some mask =>
@@ -225,7 +269,7 @@ def stepAll (st : DState) : List String → DState × String
     match parseKind k, parseBool on, parseBool side, parseRole role with
     | some k, some on, some side, some role =>
       ({ st with topo := { st.topo with nodes := st.topo.nodes ++ [(side, role)] },
-                 states := st.states ++ [{ initNode with kind := k, on := on }] }, "ok")
+                 states := st.states ++ [{ initNode with kind := k, on := on }], kinds := st.kinds ++ [nkindOf k] }, "ok")
     | _, _, _, _ => (st, "bad-op")
   | ["t-iface", i, en] =>
     match i.toNat?, parseBool en with
